@@ -35,7 +35,7 @@ func init() {
 			"valid JSON object, key set = stored ∩ list (or minus list), values JSON-equal, no-pipe => bytes identical, ID sequence identical to the same query without the pipe; " +
 			"non-trivial = the projection removes some but not all members of some document; distinct = (surface, mode, list class, doc shape class)",
 		Assumptions: []string{"documents with duplicate keys are not generated (statement: faithful projection of an object)", "encoding/json is the independent JSON reader"},
-		Batches:     tiered(64, 480),
+		Batches:     tiered(640, 12800),
 		Run:         runC20,
 		Timeout:     timeoutFor(8*time.Minute, 40*time.Minute),
 	})
